@@ -141,7 +141,14 @@ func c18Body(r *Run) {
 
 	rig := newRouterRig(r, 30*time.Second)
 	marsh := cqrs.JSONMarshaler{}
-	bus, err := cqrs.NewCommandBusWithConfig(psCmd, cqrs.CommandBusConfig{
+	// the command publisher fails on some calls (a broker hiccup after the listener has been set up): the request then
+	// fails, and its listener is still taken down
+	cmdPub := NewScriptedPublisher(r, "command-publisher")
+	cmdPub.Inner = psCmd
+	for i := t.Skewed(3); i > 0; i-- {
+		cmdPub.FailAt[1+t.Int(8)] = PubErr
+	}
+	bus, err := cqrs.NewCommandBusWithConfig(cmdPub, cqrs.CommandBusConfig{
 		GeneratePublishTopic: func(cqrs.CommandBusGeneratePublishTopicParams) (string, error) { return "commands", nil },
 		Marshaler:            marsh,
 	})
